@@ -14,7 +14,7 @@ pub enum Hint {
     /// an honest inexact hint whose upper bound is attained: `(0, Some(elements left))`
     Upper,
     Unbounded,
-    /// ill-formed: the lower bound exceeds the upper one, `(left + 2, Some(left))` (std: "a buggy iterator may yield … it is not an error")
+    /// ill-formed: the lower bound exceeds the upper one, `(left + 2, Some(left - 1))` (std: "a buggy iterator may yield … it is not an error")
     Inverted,
     /// inexact; a call of `size_hint` by a thread of the case (the crate makes none) panics once every element was produced
     PanicEnd,
